@@ -354,6 +354,13 @@ def r11_4(ctx: Ctx):
             guards = [e for e in evs[:i] if e.kind == 'guard' and C.at_level(e, drv)]
             tl = [g.d['lit'] for g in guards if g.d['lit'].kind == 'truth' and g.d['lit'].pol and
                   isinstance(g.d['lit'].key, tuple) and g.d['lit'].key[0] == 'attr' and g.d['lit'].key[1] == key_of(selfv)]
+            if not tl:
+                # guard of the form <counter> == 0 (the counter starts at 0, the seeding routine makes it positive
+                # and nothing ever resets it): an equally good first-iteration typestate
+                cg = _counter_guard(ctx, guards)
+                if cg is not None:
+                    _check_counter_guard(ctx, rid, drv, sdg, s, evs, i, cg)
+                    continue
             if not ctx.check(bool(tl), rid, drv.short, drv.loc(s.node), 'the seeding call is guarded by a flag of the '
                                                                         'driver object',
                              'the seeding routine is called without a first-iteration guard',
@@ -387,6 +394,68 @@ def r11_4(ctx: Ctx):
                 continue
         ctx.fail(rid, m.func.short, m.loc(), f'the first-iteration flag has another writer: {m.text()} (a reset makes '
                                              f'a later call seed the search again)', key=ctx.key_for(rid, m.func, m.node))
+
+
+def _counter_guard(ctx: Ctx, guards):
+    """(owner key, field) of a guard literal  <obj>.<field> == 0  among the guards, if any."""
+    for g in guards:
+        l = g.d['lit']
+        if l.kind == 'cmp' and l.op == '==':
+            for rf in (l.rf, -l.rf):
+                a = rf.single_atom()
+                if isinstance(a, tuple) and len(a) == 4 and a[0] == 'attr' and isinstance(a[2], str):
+                    return a[1], a[2]
+    return None
+
+
+def _check_counter_guard(ctx: Ctx, rid: str, drv, sdg, s, evs, i, cg):
+    owner_k, fld = cg
+    roles = C.roles_of(ctx)
+    # (ii) the seeding trip leaves the counter positive
+    after = [e for e in evs[i:] if e.kind == 'store' and e.d['tkind'] == 'attr' and e.d['field'] == fld]
+    pos = bool(after) and isinstance(after[0].d['value'], RF) and (after[0].d['value'].const_value() or 0) >= 1
+    if not pos:
+        # the seeding routine itself (an opaque call here) sets the counter to a positive constant
+        helpers = set(roles.helpers_of(sdg))
+        pos = any(m.kind == 'attr' and m.field == fld and m.func in helpers and
+                  isinstance(getattr(m.node, 'value', None), ast.Constant) and
+                  isinstance(m.node.value.value, (int, float)) and m.node.value.value >= 1
+                  for m in roles.mutations())
+    ctx.check(pos, rid, drv.short, drv.loc(s.node), f'the seeding trip makes the guard counter {fld} positive',
+              f'the seeding routine is guarded by {fld} == 0 but does not make {fld} positive in the same trip: the '
+              f'search is seeded again on the next trip/call', key=f'{rid}::{drv.short}::cleared')
+    # (i) starts at 0, (iii) never returns to 0
+    bad = []
+    init0 = False
+    for m in roles.mutations():
+        if m.kind not in ('attr', 'aug') or m.field != fld:
+            continue
+        node = m.node
+        v = getattr(node, 'value', None)
+        if m.init_self:
+            init0 = isinstance(v, ast.Constant) and v.value == 0
+            continue
+        okw = (isinstance(node, ast.AugAssign) and isinstance(node.op, ast.Add) and isinstance(v, ast.Constant)
+               and isinstance(v.value, (int, float)) and v.value > 0) or \
+              (isinstance(node, (ast.Assign, ast.AnnAssign)) and isinstance(v, ast.Constant)
+               and isinstance(v.value, (int, float)) and v.value >= 1 and m.func is sdg)
+        if not okw:
+            bad.append(m)
+    ctx.check(init0, rid, drv.short, drv.loc(), f'the guard counter {fld} starts at 0',
+              f'the guard counter {fld} of the first-iteration test does not start at 0', key=f'{rid}::{fld}::starts-zero')
+    for m in bad:
+        ctx.fail(rid, m.func.short, m.loc(),
+                 f'{m.text()[:60]} can bring the guard counter {fld} of the first-iteration test back to 0: the seeding '
+                 f'routine then runs again on the populated search data (earlier records are orphaned, the first '
+                 f'trial is repeated)', key=ctx.key_for(rid, m.func, m.node), detail={'decidable': True})
+    if not bad:
+        ctx.ok(rid, drv.short, f'the guard counter {fld} only grows after construction', drv.loc())
+
+
+def r11_4_restore(ctx: Ctx):
+    from .c03 import restore_typestate, r_link_private
+    restore_typestate(ctx, 'R11.4')
+    r_link_private(ctx)
 
 
 def _is_listener_loop(ctx, drv, ev) -> bool:
@@ -508,6 +577,8 @@ def check(ctx: Ctx):
     for rid, fn in (('R11.1', r11_1), ('R11.2', r11_2), ('R11.3', r11_3), ('R11.4', r11_4), ('R11.7', r11_7)):
         if C.want(ctx, rid):
             fn(ctx)
+    if C.want(ctx, 'R11.4'):
+        r11_4_restore(ctx)
     if C.want(ctx, 'R11.5'):
         ctx.rule('R11.5', 'monotonicity: accuracy only through min (R03.6), counters only incremented (R03.1/R03.3), '
                           'parameters never written (R12.3), pre-tested loop (R03.5): a finished solver stays '
